@@ -541,7 +541,7 @@ package actions
 // returned then every such delivery is returned.
 //@ func (*GetSubscriptionMessages).queryAndLockDeliveriesOnce(a, ctx, tx, sub) (result, err)
 //@   property C02
-//@   uses tables notifyspec
+//@   uses tables notifyspec txspec
 // MaxMessages >= 1 is established by the only constructor (NewGetSubscriptionMessages panics otherwise).
 //@   requires a != nil && tx != nil && sub != nil && deliveries_wf() && a.params.MaxMessages >= 1
 // W3 (C10): the candidates are only ever looked up while a waiter for the subscription is registered, so a publish
@@ -566,7 +566,9 @@ package actions
 //@             deliveries.exists(d) && deliveries.subscription_id(d) == sub.ID && deliveries.completed_at$null(d) && deliveries.expires_at(d) > n2 && deliveries.attempt_at(d) <= n1 &&
 //@             (sub.OrderedDelivery ==> unblocked(d, n2)) ==> (exists k int :: 0 <= k && k < len(result) && result[k].ID == d))
 //@   ensures no_swallowed_failure: [C09] dbfailed() && !old(dbfailed()) ==> err != nil
-//@   modifies S:dbfailed
+// the row locks taken here last as long as the transaction: remember which one it was
+//@   ghostset locked_in_tx := tx_epoch()
+//@   modifies S:dbfailed, S:locked_in_tx
 
 // The pull action's client entry point (waits, retries, runs its own transactions): used by handlers through this
 // summary only. The same body is verified for the single-transaction entry point Execute (below); the
@@ -672,7 +674,7 @@ package actions
 // changes; the subscription's expiry is pushed to now + ttl.
 //@ func (*GetSubscriptionMessages).applyResults(a, ctx, tx, sub, deliveries) (err)
 //@   property C04 C02 C14 C06
-//@   uses tables notifyspec backoff
+//@   uses tables notifyspec backoff txspec
 //@   requires a != nil && tx != nil && sub != nil && deliveries_wf() && a.params.MaxMessages >= 1
 //@   requires sub_row: subscriptions.exists(sub.ID) && sub.TTL == subscriptions.ttl(sub.ID)
 //@   requires [C04] policy_domain: effmax(sub) <= 8640000000000000
@@ -681,6 +683,9 @@ package actions
 //@              deliveries[k].SubscriptionID == sub.ID && deliveries[k].Attempts == deliveries.attempts(deliveries[k].ID) && deliveries[k].MessageID == deliveries.message_id(deliveries[k].ID) &&
 //@              deliveries[k].Edges.Message.ID == deliveries[k].MessageID && messages.exists(deliveries[k].MessageID)
 //@   requires candidates_distinct: forall k1 int, k2 int :: {deliveries[k1], deliveries[k2]} 0 <= k1 && k1 < k2 && k2 < len(deliveries) ==> deliveries[k1].ID != deliveries[k2].ID
+// C04 (exclusive lease): the candidates are leased in the transaction that selected and locked them - otherwise a
+// concurrent puller can select the same rows between the two transactions and both hand the message out.
+//@   requires [C04] same_transaction: len(deliveries) > 0 ==> locked_in_tx() == tx_epoch()
 //@   ensures handed_out: [C04 C02] err == nil ==> a.results != nil && (exists now clock :: forall j int :: {a.results.Deliveries[j]} 0 <= j && j < len(a.results.Deliveries) ==>
 //@             a.results.Deliveries[j] != nil && leased(a.results.Deliveries[j].ID, now, sub) && a.results.Deliveries[j].NumAttempts == old(deliveries.attempts(cur(a.results.Deliveries[j].ID))) + 1 &&
 //@             (exists k int :: 0 <= k && k < len(deliveries) && deliveries[k].ID == a.results.Deliveries[j].ID && a.results.Deliveries[j].MessageID == deliveries[k].Edges.Message.ID &&
@@ -758,6 +763,8 @@ package actions
 //@   ensures found: err == nil ==> sub != nil && !allocated(sub) && live_sub(sub.ID) && a.params.ID != nil && deref(a.params.ID) == sub.ID && sub.TTL == subscriptions.ttl(sub.ID) && effmax(sub) == effmax_row(sub.ID) && effmin(sub) == effmin_row(sub.ID) &&
 //@             (old(a.params.ID) != nil ==> sub.ID == old(deref(a.params.ID))) && (a.params.Name != "" ==> subscriptions.name(sub.ID) == a.params.Name)
 //@   ensures unbound_on_error: err != nil ==> a.params.ID == old(a.params.ID)
+//@   ensures found_if_live: [C14] err != nil && !dbfailed() && unique_sub_names() && (old(a.params.ID) != nil || a.params.Name != "") ==> (forall s Id :: {subscriptions.exists(s)} !(live_sub(s) &&
+//@             (old(a.params.ID) != nil ==> old(deref(a.params.ID)) == s) && (a.params.Name != "" ==> subscriptions.name(s) == a.params.Name)))
 //@   ensures no_swallowed_failure: [C09] dbfailed() && !old(dbfailed()) ==> err != nil
 //@   modifies F:actions.GetSubscriptionMessages:actionBase.params.ID, S:dbfailed, B:uuid.UUID:
 //@   allocates F:ent.*, B:*, E:*, MH:string:string, MV:string:string:*
@@ -781,6 +788,33 @@ package actions
 //@     invariant twf: tables_wf()
 //@     invariant mm: a.params.MaxMessages >= 1
 //@     invariant !dbfailed() || old(dbfailed())
+
+// ---- the pull action as production runs it (ExecuteClient): every step in a transaction of its own. The runner
+// is a parameter; it is assumed to run its argument once inside a fresh transaction and to roll back when the
+// argument or the commit fails (that is what DoCtxTxRetry does per attempt). Checked here: the composition
+// obligations again (now across transaction boundaries), that the lease is taken in the transaction that locked
+// the candidates (C04), and that every pull that got as far as finding its subscription has restarted the
+// expiry clock in a committed transaction, however it ends (C14).
+//@ func (*GetSubscriptionMessages).execute.param.runTx(f) (err)
+//@   option runner transaction
+//@ func (*GetSubscriptionMessages).execute~multitx(a, ctx, timerTx, runTx) (err)
+//@   property C04 C14 C10 C02
+//@   uses tables notifyspec backoff txspec
+//@   requires a != nil && timerTx == nil && tables_wf() && registry_wf() && a.params.MaxMessages >= 1 && (a.params.ID != nil || a.params.Name != "")
+//@   requires [C04] policy_domain: forall s Id :: {subscriptions.exists(s)} subscriptions.exists(s) ==> effmax_row(s) <= 8640000000000000
+//@   ensures pull_restarts_clock: [C14] !dbfailed() ==> (exists now clock :: forall s Id :: {subscriptions.exists(s)} old(live_sub(s)) && (old(a.params.ID) != nil ==> old(deref(a.params.ID)) == s) &&
+//@             (a.params.Name != "" ==> old(subscriptions.name(s)) == a.params.Name) ==> subscriptions.expires_at(s) == now + subscriptions.ttl(s))
+//@   ensures no_swallowed_failure: [C09] dbfailed() && !old(dbfailed()) ==> err != nil
+//@   modifies *
+//@   loop 1
+//@     invariant a != nil
+//@     invariant pid: a.params.ID != nil
+//@     invariant rwf: registry_wf()
+//@     invariant twf: tables_wf()
+//@     invariant mm: a.params.MaxMessages >= 1
+//@     invariant !dbfailed() || old(dbfailed())
+//@     invariant refreshed: [C14] !dbfailed() ==> (exists now clock :: forall s Id :: {subscriptions.exists(s)} old(live_sub(s)) && (old(a.params.ID) != nil ==> old(deref(a.params.ID)) == s) &&
+//@             (a.params.Name != "" ==> old(subscriptions.name(s)) == a.params.Name) ==> subscriptions.expires_at(s) == now + subscriptions.ttl(s))
 
 // looks up when the next candidate becomes due: reads only
 //@ func (*GetSubscriptionMessages).nextAttempt(a, ctx, tx, sub) (next, err)
